@@ -298,3 +298,10 @@ Proof.
   split; [vm_compute; split; reflexivity|]. split; [vm_compute; reflexivity|].
   split; eexists; (split; [vm_compute; reflexivity|]); split; vm_compute; reflexivity.
 Qed.
+
+(* the user's own umask can take the owner's permissions away: under umask 0300 the pre-created
+   directory is 0477 and its owner cannot create anything in it (not a defect of the store) *)
+Example owner_bit_umask_refuses :
+  extract_p false [b "d"] 192 false (tar_entries [b "d"] true readonly_dir_witness) = Err XPerm /\
+  exists f, extract_p true [b "d"] 192 false (tar_entries [b "d"] true readonly_dir_witness) = Ok f.
+Proof. split; [vm_compute; reflexivity|eexists; vm_compute; reflexivity]. Qed.
